@@ -203,6 +203,15 @@ impl Read for SimReader {
     }
 }
 
+impl std::io::Write for SimReader {
+    fn write(&mut self, buf: &[u8]) -> io::Result<usize> {
+        Ok(buf.len())
+    }
+    fn flush(&mut self) -> io::Result<()> {
+        Ok(())
+    }
+}
+
 impl AsyncRead for SimReader {
     fn poll_read(
         self: Pin<&mut Self>,
@@ -347,6 +356,9 @@ pub struct DriveInput<'a> {
     pub extra_receives: usize,
     /// one transient read error (kind name) at this read call; the driver keeps receiving after it
     pub error_at: Option<(usize, String)>,
+    /// write a command (into a sink) before every `receive()`: what a pipelining caller does;
+    /// sending must not touch what has been received
+    pub send_between: bool,
 }
 
 pub fn kind_of(name: &str) -> io::ErrorKind {
@@ -431,6 +443,11 @@ fn drive_blocking(
             return;
         }
         handle.begin_op();
+        if input.send_between {
+            let _ = catch_unwind(AssertUnwindSafe(|| {
+                conn.send(mpd_protocol::Command::new("ping"))
+            }));
+        }
         match catch_unwind(AssertUnwindSafe(|| conn.receive())) {
             Err(p) => {
                 out.terminal = panic_terminal(p);
@@ -513,6 +530,11 @@ fn drive_async(
         }
         handle.begin_op();
         let budget = poll_budget(input.stream.len() - handle.pos());
+        if input.send_between {
+            let list = mpd_protocol::CommandList::new(mpd_protocol::Command::new("ping"))
+                .command(mpd_protocol::Command::new("status"));
+            let _ = catch_unwind(AssertUnwindSafe(|| block_on_budget(conn.send_list(list), 64)));
+        }
         match catch_unwind(AssertUnwindSafe(|| block_on_budget(conn.receive(), budget))) {
             Err(p) => {
                 out.terminal = panic_terminal(p);
